@@ -46,15 +46,15 @@ func c12Types() []c12Type {
 		{Leaf: "bo", Kind: "bool", Values: []string{"true", "false"}},
 		{Leaf: "em", Kind: "empty", Values: []string{"<empty>"}},
 		{Leaf: "en", Kind: "enum", Values: []string{"one", "two"}},
-		{Leaf: "idr", Kind: "identityref", Values: []string{"tcp", "udp"}},
+		{Leaf: "idr", Kind: "identityref", Values: []string{"tcp", "udp", "sctp"}},
 		{Leaf: "un", Kind: "union", Values: []string{"5", "auto", "abc"}},
 		{Leaf: "bin", Kind: "binary", Values: []string{"aGVsbG8="}},
 		{Leaf: "st", Kind: "string", Values: []string{"hello", "a b", "üñí", "007", "true"}},
-		{Leaf: "ll-i8", Kind: "int", IsLL: true, Values: []string{"-1,5", "127"}},
+		{Leaf: "ll-i8", Kind: "int", IsLL: true, Values: []string{"-1,5", "127", "-1"}},
 		{Leaf: "ll-u64", Kind: "uint", IsLL: true, Values: []string{"1,18446744073709551615"}},
 		{Leaf: "ll-d2", Kind: "decimal", Prec: 2, IsLL: true, Values: []string{"1.25,-0.05"}},
-		{Leaf: "ll-st", Kind: "string", IsLL: true, Values: []string{"a,b c"}},
-		{Leaf: "ll-idr", Kind: "identityref", IsLL: true, Values: []string{"tcp,udp"}},
+		{Leaf: "ll-st", Kind: "string", IsLL: true, Values: []string{"a,b c", "a", "a,b c,d"}},
+		{Leaf: "ll-idr", Kind: "identityref", IsLL: true, Values: []string{"tcp,udp", "sctp,tcp"}},
 	}
 }
 
@@ -121,6 +121,9 @@ func (t c12Type) scalarTV(s string) *sdcpb.TypedValue {
 	case "empty":
 		return &sdcpb.TypedValue{Value: &sdcpb.TypedValue_EmptyVal{EmptyVal: &emptypb.Empty{}}}
 	case "identityref":
+		if s == "sctp" {
+			return &sdcpb.TypedValue{Value: &sdcpb.TypedValue_IdentityrefVal{IdentityrefVal: &sdcpb.IdentityRef{Value: s, Prefix: "vmx", Module: "verif-vm-ext"}}}
+		}
 		return &sdcpb.TypedValue{Value: &sdcpb.TypedValue_IdentityrefVal{IdentityrefVal: &sdcpb.IdentityRef{Value: s, Prefix: "vm", Module: "verif-vm"}}}
 	case "binary":
 		b, _ := base64.StdEncoding.DecodeString(s)
@@ -151,6 +154,9 @@ func (t c12Type) jsonScalar(s string, ietf bool) any {
 		return map[string]any{}
 	case "identityref":
 		if ietf {
+			if s == "sctp" {
+				return "verif-vm-ext:" + s
+			}
 			return "verif-vm:" + s
 		}
 		return s
@@ -509,7 +515,11 @@ func runC12() int {
 					case "empty":
 						fmt.Fprintf(&sb, "<%s/>", t.Leaf)
 					case "identityref":
-						fmt.Fprintf(&sb, `<%s xmlns:vm="urn:verif:vm">vm:%s</%s>`, t.Leaf, e, t.Leaf)
+						if e == "sctp" {
+							fmt.Fprintf(&sb, `<%s xmlns:vmx="urn:verif:vm-ext">vmx:%s</%s>`, t.Leaf, e, t.Leaf)
+						} else {
+							fmt.Fprintf(&sb, `<%s xmlns:vm="urn:verif:vm">vm:%s</%s>`, t.Leaf, e, t.Leaf)
+						}
 					default:
 						fmt.Fprintf(&sb, "<%s>%s</%s>", t.Leaf, e, t.Leaf)
 					}
@@ -603,6 +613,12 @@ func runC12() int {
 						}
 					}()
 					eq = utils.EqualTypedValues(x.tv, y.tv)
+					if rev := utils.EqualTypedValues(y.tv, x.tv); rev != eq {
+						rep.Add(&Violation{Clause: "equality-not-symmetric", Sig: "equality-not-symmetric:" + leaf, Engine: "E3-inputs",
+							Detail: fmt.Sprintf("EqualTypedValues(%s, %s) = %v but with swapped arguments %v", x.tv.String(), y.tv.String(), eq, rev),
+							Case:   map[string]any{"leaf": leaf, "a": x.tv.String(), "b": y.tv.String()}})
+						eq = x.den == y.den // already reported
+					}
 				}()
 				if pan != "" {
 					rep.Add(&Violation{Clause: "panic", Sig: "panic:equality:" + leaf, Detail: "EqualTypedValues panicked: " + pan, Engine: "E3-inputs", Case: map[string]any{"a": x.tv.String(), "b": y.tv.String()}})
